@@ -230,11 +230,26 @@ def cli_case(draw):
         spec = draw(st.sampled_from(specs))
         sn = spec["seq"]
         k = int(spec["e"] * (len(sn) - sn.count("N")))
-        r = draw(st.integers(0, 3))
+        r = draw(st.integers(0, 4))
         if r == 0:
             left = draw(st.text(alphabet="ACGT", max_size=6)) if spec["type"] not in ("prefix", "nifront") else ""
             right = draw(st.text(alphabet="ACGT", max_size=6)) if spec["type"] not in ("suffix", "niback") else ""
             sc["reads"].append(left + sn.replace("N", draw(st.sampled_from("ACGT"))) + right)
+        elif r == 1 and k >= 1:
+            # the adapter with 1..k edits (deletions preferred: the read may then be shorter than the minimum
+            # overlap, which counts adapter bases) and hardly any flank
+            mid = list(sn.replace("N", "A"))
+            for _ in range(draw(st.integers(1, min(k, 3)))):
+                op = draw(st.sampled_from("ddis")) if spec["indels"] else "s"
+                if op == "d" and len(mid) > 1:
+                    del mid[draw(st.integers(0, len(mid) - 1))]
+                elif op == "i":
+                    mid.insert(draw(st.integers(0, len(mid))), draw(st.sampled_from("ACGT")))
+                elif mid:
+                    mid[draw(st.integers(0, len(mid) - 1))] = draw(st.sampled_from("ACGT"))
+            left = draw(st.text(alphabet="ACGT", max_size=2)) if spec["type"] in ("back", "suffix", "niback") else ""
+            right = draw(st.text(alphabet="ACGT", max_size=2)) if spec["type"] in ("front", "prefix", "rightmost") else ""
+            sc["reads"].append(left + "".join(mid) + right)
         else:
             sc["reads"].append(draw(gen.planted_read(sn, min(k, 3), max_flank=6))[0].upper())
     return sc
@@ -252,17 +267,17 @@ def effective_specs(sc):
                 "o": params.get("o", g["O"] if g["O"] is not None else 3),
                 "indels": not (params.get("noindels") or g["no_indels"]), "aw": True, "rw": g["rw"]}
 
-    for src in sc["sources"]:
+    for i, src in enumerate(sc["sources"]):
         if src["kind"] == "direct":
-            out.append(eff(src["params"], src["type"], src["seq"]))
+            out.append(dict(eff(src["params"], src["type"], src["seq"]), name=f"n{i}"))
         else:
             t = {"-a": "back", "-g": "front", "-b": "anywhere"}[src["opt"]]
             if src["anchor"] == "$":
                 t = "suffix"
             elif src["anchor"] == "^":
                 t = "prefix"
-            for rec in src["records"]:
-                out.append(eff(src["params"], t, rec))
+            for j, rec in enumerate(src["records"]):
+                out.append(dict(eff(src["params"], t, rec), name=f"s{i}x{j}"))
     return out
 
 
@@ -289,7 +304,7 @@ def render_cli(sc):
             t, seq = src["type"], src["seq"]
             text = {"back": seq, "suffix": seq + "$", "niback": seq + "X", "front": seq, "prefix": "^" + seq,
                     "nifront": "X" + seq, "rightmost": seq + ";rightmost", "anywhere": seq}[t]
-            args += [src["opt"], text + ptext(src["params"])]
+            args += [src["opt"], f"n{i}=" + text + ptext(src["params"])]
         else:
             name = f"ad{i}.fasta"
             files[name] = cli.fasta([(f"s{i}x{j}", rec, None) for j, rec in enumerate(src["records"])])
